@@ -92,14 +92,14 @@ CHECKS = {
         dict(prop="C17", harness="schema_pbt", quick=dict(count=3200, workers=8), thorough=dict(count=120000, workers=16),
              essential=_ALL_SCHEMAS + ["schema=3.0.0", "file=m.db", "file=p.db", "effective-mutant", "equivalent-mutant"] +
                        [f + k for f in ("1.x:", "2.x:") for k in ['drop-table', 'rename-table', 'add-table', 'drop-view', 'rename-view', 'add-view', 'add-column', 'drop-column', 'rename-column', 'change-type', 'add-notnull', 'add-default', 'drop-index', 'add-index', 'flip-unique', 'reorder-columns', 'drop-default',
-                                                                         'change-default', 'drop-notnull', 'drop-pk']] +
+                                                                         'change-default', 'drop-notnull', 'drop-pk', 'index-columns']] +
                        ["effective:1.x:drop-default", "effective:1.x:change-default", "effective:2.x:drop-notnull", "effective:2.x:drop-pk",
                         "effective:1.x:add-default", "effective:2.x:add-default", "effective:1.x:change-type", "effective:2.x:change-type"]),
         # no randomness: every table / view / index / column of every schema x the mutation kinds (quick: whole-element kinds and drop / rename /
         # retype of every column; thorough: all 20 kinds wherever they apply)
         dict(prop="C17.enum", harness="schema_pbt", quick=dict(count="enum", workers=8), thorough=dict(count=0, workers=1),
              essential=_ALL_SCHEMAS + ["schema=3.0.0", "file=m.db", "file=p.db", "effective-mutant", "enum"] +
-                       [f + k for f in ("1.x:", "2.x:") for k in ["drop-table", "rename-table", "drop-view", "rename-view", "drop-index", "flip-unique", "drop-column", "rename-column", "change-type", "add-notnull"]] +
+                       [f + k for f in ("1.x:", "2.x:") for k in ["drop-table", "rename-table", "drop-view", "rename-view", "drop-index", "flip-unique", "drop-column", "rename-column", "change-type", "add-notnull", "index-columns"]] +
                        ["add-notnull:key-column"]),
         dict(prop="C17.enumAll", harness="schema_pbt", quick=dict(count=0, workers=1), thorough=dict(count="enum", workers=16),
              essential=_ALL_SCHEMAS + ["schema=3.0.0", "file=m.db", "file=p.db", "effective-mutant", "equivalent-mutant", "enum"]),
@@ -280,9 +280,9 @@ RULES = {
            "(creation version, another supported version of the layout, a neighbour, an outlier, a box value; same file, same size, normally within one "
            "second) and loaded after every rewrite in the same process, each load judged by the same decision table - what an earlier load of the "
            "directory found must not matter. Non-trivial there = a load that follows a successful load of a different triple.",
-    "C17": "Case = schema x file (m.db / p.db / Database2/m.db) x one of 20 mutation kinds (drop/rename/add table, view; add/drop/rename "
+    "C17": "Case = schema x file (m.db / p.db / Database2/m.db) x one of 21 mutation kinds (drop/rename/add table, view; add/drop/rename "
            "column; change a column's declared type, add NOT NULL, add DEFAULT, drop DEFAULT, change DEFAULT, drop NOT NULL, drop a column's PRIMARY "
-           "KEY (the last four choose among the tables/columns that declare one); drop/add index, flip an index's uniqueness; reorder two columns) "
+           "KEY (the last four choose among the tables/columns that declare one); drop/add index, flip an index's uniqueness, append a column to an index's column list; reorder two columns) "
            "applied to a freshly created on-disk library by the harness's own connection (ALTER TABLE or a writable_schema edit of the stored "
            "DDL found by a top-level comma split); the element is chosen from the library's own sqlite_master / table_info. Mutants failing "
            "integrity_check or not loadable are discarded and counted. Oracle: an independently computed structural fingerprint (tables, views, "
